@@ -15,14 +15,17 @@ Record semver := mkSV { sv_major : N; sv_minor : N; sv_patch : N; sv_pre : list 
 
 Inductive version := VNone | VSem (s : semver) | VRoot.
 
-(** Go string comparison (bytewise lexicographic). *)
-Fixpoint str_cmp (a b : str) : comparison :=
+(** lexicographic comparison, a proper prefix is smaller *)
+Fixpoint lex_cmp {A} (c : A -> A -> comparison) (a b : list A) : comparison :=
   match a, b with
   | [], [] => Eq
   | [], _ :: _ => Lt
   | _ :: _, [] => Gt
-  | x :: a', y :: b' => match N.compare x y with Eq => str_cmp a' b' | c => c end
+  | x :: a', y :: b' => match c x y with Eq => lex_cmp c a' b' | r => r end
   end.
+
+(** Go string comparison (bytewise lexicographic). *)
+Definition str_cmp (a b : str) : comparison := lex_cmp N.compare a b.
 
 Definition str_ltb (a b : str) : bool := match str_cmp a b with Lt => true | _ => false end.
 
@@ -35,13 +38,7 @@ Definition preid_cmp (a b : preid) : comparison :=
   | PStr x, PStr y => str_cmp x y
   end.
 
-Fixpoint ids_cmp (a b : list preid) : comparison :=
-  match a, b with
-  | [], [] => Eq
-  | [], _ :: _ => Lt
-  | _ :: _, [] => Gt
-  | x :: a', y :: b' => match preid_cmp x y with Eq => ids_cmp a' b' | c => c end
-  end.
+Definition ids_cmp (a b : list preid) : comparison := lex_cmp preid_cmp a b.
 
 (** no prerelease is greater than any prerelease *)
 Definition pre_cmp (a b : list preid) : comparison :=
